@@ -370,7 +370,9 @@ PoolC15 == <<
   [CS("d3") EXCEPT !.dom = {"x.com"}], [CS("d1") EXCEPT !.body = B("ba^")],
   [CS("d2") EXCEPT !.party = "3p"], [CS("") EXCEPT !.exc = TRUE, !.dom = {"ba.com"}],
   [R0 EXCEPT !.left = "dpipe", !.body = B("ab.ba^")], [CS("d1") EXCEPT !.badfilter = TRUE],
-  [CS("d1") EXCEPT !.important = TRUE]
+  [CS("d1") EXCEPT !.important = TRUE],
+  \* directives that contain '=' (hash / nonce sources) and agree up to the first '='
+  CS("s 'h-a='"), CS("s 'h-b='"), [CS("s 'h-b='") EXCEPT !.exc = TRUE]
 >>
 ReqsC15 == SetToSeqD(
   { MkReq(sc, "ab.ba", "/", al, src) : sc \in {"https", "ftp"},
